@@ -171,6 +171,7 @@ def run(tier, seed):
     units.sort(key=lambda u: -(u.get('N', 0) * len(u.get('devsets', []))))
     for part in pmap(ex.run_unit, units):
         chk.merge(part)
+    chk.expect('executions', len(units))
     chk.assumptions = ["entropies compared: VERIF_SEED-derived e and e+1", "bitwise comparison in one process"]
     return chk
 
